@@ -645,6 +645,8 @@ func families(tier string) []fw.Family {
 		withTunables(wordFamily(d-2), tunables{1, 1, 10000, 10000}),
 		gapFamily(6),
 		twoParagraphs(4, 2, true),
+		withTunables(wordFamily(6), tunables{1, 1, 10000, 10000}),
+		withTunables(wordFamily(6), tunables{3, 10, 3000, 300}),
 		withTunables(twoParagraphs(5, 2, true), tunables{1, 1, 10000, 10000}),
 		withTunables(twoParagraphs(4, 2, false), tunables{3, 10, 3000, 300}),
 	}
